@@ -355,7 +355,8 @@ class SchemaBuilder(
         )
         if flattened_schemas:
             return json_schema(
-                allOf=result + flattened_schemas, unevaluatedProperties=False
+                allOf=result + flattened_schemas,
+                unevaluatedProperties=additional_properties,
             )
         elif len(result) == 1:
             return result[0]
